@@ -30,6 +30,16 @@
    connect has no `IoData::reset`: the io_flag word of a connecting descriptor is learnt at the re-check of its first
    kernel half (24) or when the selector takes its coroutine (41); a readiness report that came before that is replayed
    then (`dang`: its SelTake follows as soon as the slot is empty again).
+   THREAD callers (src/io/thread.rs, yield_with_io with is_coroutine = false): the thread hands its subscriber to its
+   thread-local proxy coroutine over a channel and parks; the proxy yields with that subscriber (the kernel half runs as
+   for a coroutine, with the proxy as the coroutine that is stored / taken / scheduled), is resumed by the wake-up,
+   stores the result and unparks the thread, which goes on in `done()` with co_io_result (`io_ret.take`).  In the model
+   the caller is ONE actor (the thread's): its PYield step is played at the thread's `send` (50: InnerQueue::send's first
+   access; a thread caller does not look at a cancel bit), the proxy coroutine's identity is mapped to the caller's actor
+   at the proxy's first yield (it must be the only thread caller that has sent and whose kernel half has not started:
+   the tapped scenario variants have one thread caller), Resume is the proxy's resumption, RBack / RClr (a thread caller
+   has no cancel bit: the steps are no-ops of the model) are played with `io_ret.take` (33), whose value is compared with
+   the TimedOut parameter of the model.  The proxy's other yields (it waits on its channel) are not I/O.
    Time: the scenario logs the virtual clock (unit: 10 us) with its API events only (normalize.py drops the `now`
    column of the hooked records), so the model clock is a LOWER BOUND of the virtual clock, exact at every logged
    value: a timer that the code treats as due raises it to the deadline (`Tick`), a logged value below the model clock
@@ -59,7 +69,7 @@ Require Import MayV.Io.IoModel.
 Definition peerv (f : nat) : nat := if Nat.even f then S f else pred f.       (* connection c = descriptors 2c, 2c+1 *)
 Definition selv (f : nat) : nat := f.                  (* one model selector per descriptor; `selthr` ties them to threads *)
 
-Inductive tmode := MNone | MRun (a : nat) | MKer (k : nat) | MKerX.
+Inductive tmode := MNone | MRun (a : nat) | MKer (k : nat) | MKerX | MProxy (a : nat) | MProxyP | MRunP (a : nat).
 
 Record aux := {
   tm : nat -> tmode;             (* thread -> what it executes *)
@@ -79,7 +89,9 @@ Record aux := {
   precan : list nat;             (* scenario indices cancelled before they announced themselves *)
   cnull : nat -> option nat;     (* descriptor -> the timer entry a cancel has nulled (second half of the cancel played) *)
   seen : list nat;               (* model actors that started an operation *)
-  dang : list nat                (* descriptors whose replayed readiness report still lacks its SelTake *)
+  dang : list nat;               (* descriptors whose replayed readiness report still lacks its SelTake *)
+  tsent : list nat;              (* thread callers that handed their subscriber to their proxy coroutine (src/io/thread.rs), kernel half not started *)
+  prox : list nat                (* thread callers whose proxy coroutine is known (its identity maps to the caller's actor) *)
 }.
 (* `acap`: the capacity K1 of the kernel object the trace is checked against.  The scenario may announce it with its
    FIRST event (io.cap: a writer-blocking scenario measures it on a probe connection: how many of its fixed-size
@@ -89,19 +101,20 @@ Record ast := { ms : st; ax : aux; acap : nat; fresh : bool }.
 Definition aux0 : aux :=
   {| tm := fun _ => MNone; cmap := []; nco := 0; oflag := []; oco := []; preflag := []; selthr := fun _ => None;
      selcur := fun _ => None; selpre := fun _ => None; fds := []; dgr := fun _ => false; amap := fun _ => None; cpend := fun _ => None;
-     ctgt := fun _ => None; precan := []; cnull := fun _ => None; seen := []; dang := [] |}.
+     ctgt := fun _ => None; precan := []; cnull := fun _ => None; seen := []; dang := []; tsent := []; prox := [] |}.
 Definition capv : nat := 100 * 1000.                   (* default: no tracked write ever finds the buffer full (small transfers) *)
 Definition ainit : ast := {| ms := init; ax := aux0; acap := capv; fresh := true |}.
 
-Definition set_tm x v := {| tm := v; cmap := cmap x; nco := nco x; oflag := oflag x; oco := oco x; preflag := preflag x; selthr := selthr x; selcur := selcur x; selpre := selpre x; fds := fds x; dgr := dgr x; amap := amap x; cpend := cpend x; ctgt := ctgt x; precan := precan x; cnull := cnull x; seen := seen x; dang := dang x |}.
-Definition set_cmap x v n := {| tm := tm x; cmap := v; nco := n; oflag := oflag x; oco := oco x; preflag := preflag x; selthr := selthr x; selcur := selcur x; selpre := selpre x; fds := fds x; dgr := dgr x; amap := amap x; cpend := cpend x; ctgt := ctgt x; precan := precan x; cnull := cnull x; seen := seen x; dang := dang x |}.
-Definition set_oflag x v p := {| tm := tm x; cmap := cmap x; nco := nco x; oflag := v; oco := oco x; preflag := p; selthr := selthr x; selcur := selcur x; selpre := selpre x; fds := fds x; dgr := dgr x; amap := amap x; cpend := cpend x; ctgt := ctgt x; precan := precan x; cnull := cnull x; seen := seen x; dang := dang x |}.
-Definition set_oco x v := {| tm := tm x; cmap := cmap x; nco := nco x; oflag := oflag x; oco := v; preflag := preflag x; selthr := selthr x; selcur := selcur x; selpre := selpre x; fds := fds x; dgr := dgr x; amap := amap x; cpend := cpend x; ctgt := ctgt x; precan := precan x; cnull := cnull x; seen := seen x; dang := dang x |}.
-Definition set_sel x v c p := {| tm := tm x; cmap := cmap x; nco := nco x; oflag := oflag x; oco := oco x; preflag := preflag x; selthr := v; selcur := c; selpre := p; fds := fds x; dgr := dgr x; amap := amap x; cpend := cpend x; ctgt := ctgt x; precan := precan x; cnull := cnull x; seen := seen x; dang := dang x |}.
-Definition set_fds x v d s := {| tm := tm x; cmap := cmap x; nco := nco x; oflag := oflag x; oco := oco x; preflag := preflag x; selthr := selthr x; selcur := selcur x; selpre := selpre x; fds := v; dgr := d; amap := amap x; cpend := cpend x; ctgt := ctgt x; precan := precan x; cnull := cnull x; seen := s; dang := dang x |}.
-Definition set_cnull x v := {| tm := tm x; cmap := cmap x; nco := nco x; oflag := oflag x; oco := oco x; preflag := preflag x; selthr := selthr x; selcur := selcur x; selpre := selpre x; fds := fds x; dgr := dgr x; amap := amap x; cpend := cpend x; ctgt := ctgt x; precan := precan x; cnull := v; seen := seen x; dang := dang x |}.
-Definition set_dang x v := {| tm := tm x; cmap := cmap x; nco := nco x; oflag := oflag x; oco := oco x; preflag := preflag x; selthr := selthr x; selcur := selcur x; selpre := selpre x; fds := fds x; dgr := dgr x; amap := amap x; cpend := cpend x; ctgt := ctgt x; precan := precan x; cnull := cnull x; seen := seen x; dang := v |}.
-Definition set_can x am cp ct pc := {| tm := tm x; cmap := cmap x; nco := nco x; oflag := oflag x; oco := oco x; preflag := preflag x; selthr := selthr x; selcur := selcur x; selpre := selpre x; fds := fds x; dgr := dgr x; amap := am; cpend := cp; ctgt := ct; precan := pc; cnull := cnull x; seen := seen x; dang := dang x |}.
+Definition set_tm x v := {| tm := v; cmap := cmap x; nco := nco x; oflag := oflag x; oco := oco x; preflag := preflag x; selthr := selthr x; selcur := selcur x; selpre := selpre x; fds := fds x; dgr := dgr x; amap := amap x; cpend := cpend x; ctgt := ctgt x; precan := precan x; cnull := cnull x; seen := seen x; dang := dang x; tsent := tsent x; prox := prox x |}.
+Definition set_cmap x v n := {| tm := tm x; cmap := v; nco := n; oflag := oflag x; oco := oco x; preflag := preflag x; selthr := selthr x; selcur := selcur x; selpre := selpre x; fds := fds x; dgr := dgr x; amap := amap x; cpend := cpend x; ctgt := ctgt x; precan := precan x; cnull := cnull x; seen := seen x; dang := dang x; tsent := tsent x; prox := prox x |}.
+Definition set_oflag x v p := {| tm := tm x; cmap := cmap x; nco := nco x; oflag := v; oco := oco x; preflag := p; selthr := selthr x; selcur := selcur x; selpre := selpre x; fds := fds x; dgr := dgr x; amap := amap x; cpend := cpend x; ctgt := ctgt x; precan := precan x; cnull := cnull x; seen := seen x; dang := dang x; tsent := tsent x; prox := prox x |}.
+Definition set_oco x v := {| tm := tm x; cmap := cmap x; nco := nco x; oflag := oflag x; oco := v; preflag := preflag x; selthr := selthr x; selcur := selcur x; selpre := selpre x; fds := fds x; dgr := dgr x; amap := amap x; cpend := cpend x; ctgt := ctgt x; precan := precan x; cnull := cnull x; seen := seen x; dang := dang x; tsent := tsent x; prox := prox x |}.
+Definition set_sel x v c p := {| tm := tm x; cmap := cmap x; nco := nco x; oflag := oflag x; oco := oco x; preflag := preflag x; selthr := v; selcur := c; selpre := p; fds := fds x; dgr := dgr x; amap := amap x; cpend := cpend x; ctgt := ctgt x; precan := precan x; cnull := cnull x; seen := seen x; dang := dang x; tsent := tsent x; prox := prox x |}.
+Definition set_fds x v d s := {| tm := tm x; cmap := cmap x; nco := nco x; oflag := oflag x; oco := oco x; preflag := preflag x; selthr := selthr x; selcur := selcur x; selpre := selpre x; fds := v; dgr := d; amap := amap x; cpend := cpend x; ctgt := ctgt x; precan := precan x; cnull := cnull x; seen := s; dang := dang x; tsent := tsent x; prox := prox x |}.
+Definition set_cnull x v := {| tm := tm x; cmap := cmap x; nco := nco x; oflag := oflag x; oco := oco x; preflag := preflag x; selthr := selthr x; selcur := selcur x; selpre := selpre x; fds := fds x; dgr := dgr x; amap := amap x; cpend := cpend x; ctgt := ctgt x; precan := precan x; cnull := v; seen := seen x; dang := dang x; tsent := tsent x; prox := prox x |}.
+Definition set_dang x v := {| tm := tm x; cmap := cmap x; nco := nco x; oflag := oflag x; oco := oco x; preflag := preflag x; selthr := selthr x; selcur := selcur x; selpre := selpre x; fds := fds x; dgr := dgr x; amap := amap x; cpend := cpend x; ctgt := ctgt x; precan := precan x; cnull := cnull x; seen := seen x; dang := v; tsent := tsent x; prox := prox x |}.
+Definition set_thr x ts pr := {| tm := tm x; cmap := cmap x; nco := nco x; oflag := oflag x; oco := oco x; preflag := preflag x; selthr := selthr x; selcur := selcur x; selpre := selpre x; fds := fds x; dgr := dgr x; amap := amap x; cpend := cpend x; ctgt := ctgt x; precan := precan x; cnull := cnull x; seen := seen x; dang := dang x; tsent := ts; prox := pr |}.
+Definition set_can x am cp ct pc := {| tm := tm x; cmap := cmap x; nco := nco x; oflag := oflag x; oco := oco x; preflag := preflag x; selthr := selthr x; selcur := selcur x; selpre := selpre x; fds := fds x; dgr := dgr x; amap := am; cpend := cp; ctgt := ct; precan := pc; cnull := cnull x; seen := seen x; dang := dang x; tsent := tsent x; prox := prox x |}.
 
 (* ---- small helpers ---------------------------------------------------------------------------------------- *)
 Definition pcn (p : pc) : nat :=
@@ -152,7 +165,7 @@ Definition obs (x : aux) (b : bool) : plan := if b then ok x else None.
 Definition chk (b : bool) (p : plan) : plan := if b then p else None.
 
 (* the model actor a thread stands for: the coroutine it runs, else itself *)
-Definition cur (x : aux) (t : nat) : nat := match tm x t with MRun a => a | _ => 2 * t end.
+Definition cur (x : aux) (t : nat) : nat := match tm x t with MRun a | MRunP a => a | _ => 2 * t end.
 
 (* select(): disarm + schedule of the coroutines this thread took out of their slots and has not passed on yet *)
 Definition flush (m : st) (x : aux) (t : nat) : list action :=
@@ -225,7 +238,8 @@ Definition mkplan (s : ast) (e : list Z) : plan :=
         let '(c, x1) := match zassoc (cmap x) obj with
                         | Some c => (c, x)
                         | None => let c := (2 * nco x + 1)%nat in (c, set_cmap x ((obj, c) :: cmap x) (S (nco x))) end in
-        let x2 := set_tm x1 (upd (tm x1) t (MRun c)) in
+        (* the body of a proxy coroutine is not its thread caller: what it does (it waits on its channel) is nobody's I/O *)
+        let x2 := set_tm x1 (upd (tm x1) t (if nmem (prox x1) c then MProxy c else MRun c)) in
         match tm x t with
         | MKer k =>
             match spc_ (Sb m k) with
@@ -233,16 +247,35 @@ Definition mkplan (s : ast) (e : list Z) : plan :=
             | _ => None
             end
         | _ =>
-            if pc_eqb (apc (A m c)) Susp then
+            if pc_eqb (apc (A m c)) Susp && match ahome (A m c) with HSub _ => true | _ => false end then
+              (* the proxy coroutine of a thread caller is resumed by its channel (the thread's send): not an I/O wake-up *)
+              obs x2 (nmem (prox x) c)
+            else if pc_eqb (apc (A m c)) Susp then
               acts (match ahome (A m c) with
                     | HCan _ | HKCan _ => set_cnull x2 (upd (cnull x2) (afd (A m c)) (tmr m (afd (A m c))))
                     | _ => x2 end)
                    (flush_for m c ++ [Resume c])
-            else obs x2 (outside (apc (A m c)))
+            else obs x2 (outside (apc (A m c)) || nmem (prox x) c)
         end
     | 2 => (* co.yield c: the thread now runs the kernel half *)
-        match tm x t with
-        | MRun c =>
+        match (match tm x t with MProxy c => Some c | MRun c => Some c | _ => None end) with
+        | None => (* a yield through yield_with (park, sleep, join ...: it looked at the cancel bit first): not an I/O subscription *)
+            match tm x t with
+            | MProxyP => ok (set_tm x (upd (tm x) t MKerX))
+            | MRunP c => obs (set_tm x (upd (tm x) t MKerX)) (outside (apc (A m c)) || nmem (prox x) c)
+            | _ => None
+            end
+        | Some c0 =>
+            (* a coroutine that never did I/O itself yields while exactly one thread caller has sent its subscriber: it is
+               that thread's proxy, from now on its identity stands for the caller's actor *)
+            let cand := filter (fun a0 => pc_eqb (apc (A m a0)) Susp && match ahome (A m a0) with HSub _ => true | _ => false end) (tsent x) in
+            let '(c, x) := if negb (nmem (seen x) c0) && pc_eqb (apc (A m c0)) Idle && negb (nmem (prox x) c0) then
+                             match cand, find (fun p => Nat.eqb (snd p) c0) (cmap x) with
+                             | [a0], Some (o, _) => (a0, set_thr (set_cmap x ((o, a0) :: cmap x) (nco x)) (tsent x) (a0 :: prox x))
+                             | _, _ => (c0, x)
+                             end
+                           else (c0, x) in
+            let x := set_thr x (filter (fun a0 => negb (Nat.eqb a0 c)) (tsent x)) (prox x) in
             let md := match apc (A m c), ahome (A m c) with
                       | Susp, HSub k => MKer k
                       | _, _ => MKerX end in
@@ -251,9 +284,8 @@ Definition mkplan (s : ast) (e : list Z) : plan :=
                of the real one, whatever holds the worker up before the store) *)
             match md with
             | MKer k => acts (set_tm x (upd (tm x) t md)) (match spc_ (Sb m k) with SArm => [Sub k false] | _ => [] end)
-            | _ => obs (set_tm x (upd (tm x) t md)) (outside (apc (A m c)))
+            | _ => obs (set_tm x (upd (tm x) t md)) (outside (apc (A m c)) || nmem (prox x) c)
             end
-        | _ => None
         end
     | 3 => (* co.subscribed *)
         let x' := set_tm x (upd (tm x) t MNone) in
@@ -266,9 +298,15 @@ Definition mkplan (s : ast) (e : list Z) : plan :=
     | 4 => (* co.panic: the coroutine is gone, the thread is a plain worker again *)
         obs (set_tm x (upd (tm x) t MNone)) (outside p)
     (* ---- API level events logged by the scenario ---- *)
-    | 5 => (* io.now v (unit 10 us) *)
+    | 5 => (* io.now v (unit 10 us); whoever logs it is a coroutine / thread of the scenario (not a proxy coroutine) *)
         let n := Z.to_nat v in
+        let x := set_fds x (fds x) (dgr x) (if nmem (seen x) a then seen x else a :: seen x) in
         if (now m <? n)%nat then acts x [Tick (n - now m)] else obs x (Nat.eqb (now m) n)
+    | 12 => (* co.body_end: the coroutine's closure returned; the yield that follows is its last, not an I/O subscription *)
+        match tm x t with
+        | MRun c => ok (set_tm x (upd (tm x) t (MRunP c)))
+        | _ => ok x
+        end
     | 6 => (* io.call: obj = f + 256 kind + 512 cn + 1024 dgram, val = (timeout + 1) * 2^36 + off * 2^16 + n *)
         let f' := Z.to_nat (obj mod 256) in
         let k := if Z.eqb ((obj / 2048) mod 2) 1 then Ac else if Z.eqb ((obj / 4096) mod 2) 1 then Co
@@ -468,6 +506,9 @@ Definition mkplan (s : ast) (e : list Z) : plan :=
                     | SCan => chk (Bool.eqb (Z.eqb v 1) (acanc (A m (sa (Sb m k))))) (acts x [Sub k false])
                     | _ => None end
         | MKerX => ok x
+        | MProxy _ | MProxyP => ok (set_tm x (upd (tm x) t MProxyP))
+        | MRun c => if at_ PYield then chk (Bool.eqb (Z.eqb v 1) (acanc r)) (acts x [Step a 0])
+                    else obs (set_tm x (upd (tm x) t (MRunP c))) (outside p)
         | _ => if at_ PYield then chk (Bool.eqb (Z.eqb v 1) (acanc r)) (acts x [Step a 0]) else obs x (outside p)
         end
     | 28 => (* check_cancel: state.load -> v *)
@@ -518,6 +559,17 @@ Definition mkplan (s : ast) (e : list Z) : plan :=
                         | _ => None end
             | None => ok x
             end
+        end
+    (* ---- a plain thread as caller: src/io/thread.rs ---- *)
+    | 33 => (* co_io_result(false): io_ret.take() -> some = the TimedOut result the proxy stored *)
+        match tm x t with
+        | MNone => if at_ RBack then chk (Bool.eqb (znz v) (apara r) && negb (acanc r)) (acts x [Step a 0; Step a 0]) else None
+        | _ => None
+        end
+    | 50 => (* InnerQueue::send (first access): a plain thread in yield_with_io hands its subscriber to its proxy *)
+        match tm x t with
+        | MNone => if at_ PYield then chk (negb (acanc r)) (acts (set_thr x (a :: tsent x) (prox x)) [Step a 0]) else ok x
+        | _ => ok x
         end
     (* ---- the selector thread: Selector::select, timeout_handler ---- *)
     | 40 => (* select: io_flag.fetch_or(events) -> old *)
